@@ -63,3 +63,10 @@ package database
 //@ ensures[C03:body-error-reported] called(fn) && result_of(fn, 0) != nil ==> err != nil
 //@ ensures[C03:success-means-committed] err == nil ==> called(tx.Commit) && result_of(tx.Commit, 0) == nil
 //@ ensures[C03:begin-error-reported] result_of(db.BeginTx, 1) != nil ==> err != nil && !called(fn)
+
+// C03. Undo order (ghost scenario on the real TxController with a do-nothing database/sql driver; bounded).
+//@ func verifUndoHooksRunLastFirst
+//@ property C01 C03
+//@ mode nosafety
+//@ bounded 200
+//@ ensures[C03:undo-hooks-run-last-registered-first] result
